@@ -87,7 +87,8 @@ def facts_dir(tier="quick", root=None):
     root = root or REPO
     all_targets = tier == "thorough"
     th = tree_hash(root)
-    key = "%s-%s" % (th, "all" if all_targets else "lib")
+    tools = tree_hash(os.path.join(VERIF, "tools"), ["ssl-facts/src", "ssl-grammar/src"])[:8]
+    key = "%s-%s-%s" % (th, tools, "all" if all_targets else "lib")
     os.makedirs(CACHE, exist_ok=True)
     out = os.path.join(CACHE, "facts", key)
     lock = open(os.path.join(CACHE, "extract.lock"), "w")
